@@ -18,8 +18,31 @@ def degree_table(F):
     fn = F.find(CORE, "ast::Degree::name_base_scale")
     h = F.hir_of(fn)
     ms = [m for m in hir_walk(h["body"]) if m.get("k") == "Match" and m.get("src") == "Normal"]
+    if not ms:
+        # the same table as a const array with one row per variant, in declaration order, indexed by `*self as usize`
+        idx = [n for n in hir_walk(h["body"]) if n.get("k") == "Index"]
+        if len(idx) == 1:
+            base, i = idx[0].get("a") or idx[0].get("base") or idx[0].get("e"), idx[0].get("b") or idx[0].get("index") or idx[0].get("i")
+            while base and base.get("k") in ("AddrOf", "DropTemps", "Paren") and base.get("e"):
+                base = base["e"]
+            c = F.consts.get(CORE, {}).get((base.get("r") or {}).get("path")) if base and base.get("k") == "Path" else None
+            by_self = i is not None and i.get("k") == "Cast" and "usize" in str(i.get("ty", "")) and any(
+                x.get("k") == "Path" and (x.get("r") or {}).get("name") == "self" for x in hir_walk(i))
+            body = c["body"] if c else None
+            while body and body.get("k") in ("AddrOf", "DropTemps", "Paren") and body.get("e"):
+                body = body["e"]
+            variants = [v["name"] for v in F.adt(CORE, "ast::Degree")["variants"]]
+            discr_plain = all(v.get("discr") == "rel:%d" % k_ for k_, v in enumerate(F.adt(CORE, "ast::Degree")["variants"]))
+            rows = (body.get("elems") or body.get("es") or []) if body and body.get("k") == "Array" else []
+            if c and by_self and discr_plain and len(rows) == len(variants):
+                table = {}
+                for vname, tup in zip(variants, rows):
+                    if tup.get("k") != "Tup" or len(tup["elems"]) != 3 or not all(e.get("k") == "Lit" for e in tup["elems"]):
+                        raise AnchorLost("row of %s for %s is not a tuple of three string literals" % (c["path"], vname))
+                    table[vname] = tuple(e["lit"]["v"] for e in tup["elems"])
+                return fn, table
     if len(ms) != 1:
-        raise AnchorLost("name_base_scale is not a single match")
+        raise AnchorLost("name_base_scale is neither a single match nor an index by `*self as usize` into a const table with one row per variant")
     table = {}
     for a in ms[0]["arms"]:
         p = a["pat"]
@@ -224,6 +247,28 @@ def aliases(chk, F):
             names = [p["e"]["v"] for p in pats if p["pk"] == "expr" and "v" in p["e"]]
             if variant and names and len(degs) == 1:
                 table.setdefault(variant, []).extend(names)
+    # ... or the spellings are rows ("spelling", Degree::X) of a const table that the lexer searches by exact equality of the
+    # first component and whose second component becomes the token
+    for n in hir_walk(h["body"]):
+        if n.get("k") == "Path" and (n.get("r") or {}).get("res") == "def" and str(n["r"].get("dk", "")).startswith("Const"):
+            c = F.consts.get(CORE, {}).get(n["r"].get("path"))
+            if c is None or "ast::Degree" not in c["ty"] or "str" not in c["ty"]:
+                continue
+            body = c["body"]
+            while body.get("k") in ("AddrOf", "DropTemps", "Paren") and body.get("e"):
+                body = body["e"]
+            rows = (body.get("elems") or body.get("es") or []) if body.get("k") == "Array" else []
+            used = [m for m in hir_walk(h["body"]) if m.get("k") == "MethodCall" and m["name"] in ("find", "position", "find_map")
+                    and any(x is n for x in hir_walk(m["recv"]))]
+            eq_only = bool(used) and all(any(b.get("k") == "Binary" and b.get("op") == "Eq" for b in hir_walk(a)) and
+                                         not any(b.get("k") == "MethodCall" and b["name"] in ("starts_with", "ends_with", "contains", "eq_ignore_ascii_case") for b in hir_walk(a))
+                                         for m in used for a in m["args"])
+            if not rows or not eq_only:
+                continue
+            for tup in rows:
+                if tup.get("k") == "Tup" and len(tup["elems"]) == 2 and tup["elems"][0].get("k") == "Lit" and tup["elems"][1].get("k") == "Path" \
+                        and "Degree::" in tup["elems"][1]["r"].get("path", ""):
+                    table.setdefault(tup["elems"][1]["r"]["path"].split("::")[-1], []).append(tup["elems"][0]["lit"]["v"])
     adt = F.adt(CORE, "ast::Degree")
     variants = [v["name"] for v in adt["variants"]]
     fk = "rink_core::parsing::text_query lexer"
